@@ -6,6 +6,7 @@
               a plain one), 46 [recorded; delivered]* per object *)
 From Coq Require Import ZArith List Bool Arith.
 From Tally Require Import Base.Obs Model.FirstUse.
+From Tally Require Corr.LocksCorr.
 Import ListNotations.
 Open Scope Z_scope.
 
@@ -34,7 +35,7 @@ Fixpoint run_labels (s : msys) (sched : list nat) : msys * list Z :=
       let '(sf, ls) := run_labels s' r in (sf, l :: ls)
   end.
 
-Definition check (c : gcase) : Z :=
+Definition check_firstuse (c : gcase) : Z :=
   let cached := match gparams c with x :: _ => negb (x =? 0) | _ => false end in
   let es := ginput c in
   let '(sf, ls) := run_labels (init (threads_of es)) (sched_of es) in
@@ -50,5 +51,9 @@ Definition check (c : gcase) : Z :=
       else 0
   | _ => 5
   end.
+
+(* cases whose parameters start with 777 belong to the lock-layer correspondence *)
+Definition check (c : gcase) : Z :=
+  match gparams c with 777 :: _ => LocksCorr.check c | _ => check_firstuse c end.
 
 Definition mismatches := gcollect check.
